@@ -40,8 +40,9 @@ theorem C04_decompile_no_dangling (p : Prog) (h : InRange p 0) :
     for every IR program that compiles to `p`, has no shift by zero and whose chain values are
     pairwise distinct, `Build` succeeds (no compile error, the assertion in `builder.add` is not
     reached) and the script denotes exactly `p` with the operands of each addition sorted.
-    (A shift by zero is never produced by `Decompile`; with one, the claim is false: the two
-    instructions `1: D(0); 1: S(1,0)` compile, and `Build` names two statements `_10`.) -/
+    (A shift by zero is never produced by `Decompile`; with one, the claim is false, for the model and
+    for the Go code alike: `9: S(0,9); 9: S(9,0); 10: A(9,9)` compiles to ten doublings, and `Build`
+    yields `i9 = 1 << 9; i9 = i9 << 0; return i9 + i9`, two statements named `i9`, which does not load.) -/
 theorem C04_build_denotes (ir : IR) (p : Prog) (hs : ∀ inst ∈ ir, ∀ x s, inst.op = .shl x s → 1 ≤ s)
     (hc : cAll [] ir = some p) (hnd : (evaluate p).Nodup) :
     ∃ s, buildX ir = .ok s ∧ dStmts [] [] s = some (p.map norm) := by
